@@ -481,6 +481,9 @@ func main() {
 		fmt.Printf("note: return path of %s is unreachable under the contract (postcondition holds vacuously there)\n", v)
 	}
 	replayDir := filepath.Join(*verif, "replays", *property)
+	if fre == nil {
+		os.RemoveAll(replayDir) // replays always describe the current run
+	}
 	for _, o := range failing {
 		violations++
 		path := writeReplay(replayDir, *property, o, P, *repo)
